@@ -297,7 +297,7 @@ func runGate(c *core.Ctx, idx int, gc gateCase) {
 	// the partner call may itself block on the held worker (e.g. WaitAll needs
 	// all workers idle): if the gate is still holding after the partner passed
 	// no until-point and is blocked, release it (pair infeasible).
-	for i := 0; i < 6000; i++ {
+	for i := 0; i < 2500; i++ {
 		done := false
 		select {
 		case <-callDone:
@@ -584,9 +584,9 @@ func Run(c *core.Ctx) {
 			c.Sample("gate", fmt.Sprintf("%+v", gc))
 		}
 	}
-	n := c.Pick(2400, 120000)
+	n := c.Pick(1600, 120000)
 	if c.Race {
-		n = c.Pick(600, 20000)
+		n = c.Pick(400, 20000)
 	}
 	for i := 0; i < n; i++ {
 		if !c.Take("noise", i) {
